@@ -153,8 +153,11 @@ func rfc4180(text string, sep byte) ([]string, bool) {
 
 // csvLineOK: is `got` an acceptable CSV-mode $0 for these fields?
 func csvLineOK(got string, fields []string, sep byte) bool {
-	if len(fields) == 0 || (len(fields) == 1 && fields[0] == "") {
+	if len(fields) == 0 {
 		return got == ""
+	}
+	if len(fields) == 1 && fields[0] == "" && got == "" {
+		return true // one empty field: both the empty text and `""` are CSV encodings of it (GoAWK writes `""` since G08-2)
 	}
 	back, ok := rfc4180(got, sep)
 	if !ok || len(back) != len(fields) {
